@@ -257,6 +257,30 @@ def veq(a, b):
     return z3.And([to_z3(x) == to_z3(y) for x, y in zip(a.items, b.items)])
 
 
+def intersect_planes_obligations(run, funcs):
+    """the vertex formula: the returned point lies on all three planes, on EVERY normal path of the function (det != 0)"""
+    mk_plane = lambda n, p: engine.make_struct('src/geometry.rs', 'Plane', n=n, p=p)
+    n = [rvec('n%d' % k) for k in range(3)]
+    p = [rvec('p%d' % k) for k in range(3)]
+    c = Call(run, funcs, r'^intersect_planes$', [mk_plane(n[k], p[k]) for k in range(3)], by_ref=(0, 1, 2))
+    vs = all_vars(*n, *p)
+    det = to_z3(dot(n[2], cross(n[0], n[1])))
+    for pk, (st, x) in enumerate(c.outs):
+        H = hyps_of(st)
+        tagp = '' if len(c.outs) == 1 else ' [path %d]' % pk
+        if pk == 0:
+            run.witness('C19 intersect_planes', H)
+        for k in range(3):
+            decide(run, 'intersect_planes', 'n%d . x = n%d . p%d%s' % (k, k, k, tagp), H, zdot(n[k], x) == zdot(n[k], p[k]), vs,
+                   prefer=[det * det <= z3.RealVal('1e-18'), det != 0] if len(c.outs) > 1 else None)
+        run.guard(side_obligations, 'C19 intersect_planes%s' % tagp, st, H)
+    if not c.outs:
+        run.inconclusive.append('intersect_planes: no normal path')
+    # the function's own guard is exactly det != 0: the panic path is taken iff det = 0
+    for pc, msg, pst in c.panics:
+        run.prove('C19 intersect_planes: panic only if the three normals are linearly dependent', list(pc), det != 0, timeout=30)
+
+
 def check(run):
     funcs, info = engine.load_mir('ibig')
     run.mir_info.append(info)
@@ -266,21 +290,7 @@ def check(run):
     sph_c = engine.field_index('src/geometry.rs', 'Sphere', 'center')
     sph_r = engine.field_index('src/geometry.rs', 'Sphere', 'radius')
 
-    # ---- intersect_planes
-    n = [rvec('n%d' % k) for k in range(3)]
-    p = [rvec('p%d' % k) for k in range(3)]
-    c = Call(run, funcs, r'^intersect_planes$', [mk_plane(n[k], p[k]) for k in range(3)], by_ref=(0, 1, 2))
-    st, x = c.single()
-    H = hyps_of(st)
-    run.witness('C19 intersect_planes', H)
-    vs = all_vars(*n, *p)
-    for k in range(3):
-        decide(run, 'intersect_planes', 'n%d . x = n%d . p%d' % (k, k, k), H, zdot(n[k], x) == zdot(n[k], p[k]), vs)
-    det = to_z3(dot(n[2], cross(n[0], n[1])))
-    # the function's own guard is exactly det != 0: the panic path is taken iff det = 0
-    for pc, msg, pst in c.panics:
-        run.prove('C19 intersect_planes: panic only if the three normals are linearly dependent', list(pc), det != 0, timeout=30)
-    run.guard(side_obligations, 'C19 intersect_planes', st, H)
+    intersect_planes_obligations(run, funcs)
 
     # ---- Plane::project_onto
     nn, pp, xx = rvec('n'), rvec('p'), rvec('x')
